@@ -878,7 +878,8 @@ func (handler *Handler) QueryResponseHandler(ctx context.Context, packet *Packet
 					return err
 				}
 				output = append(output, fieldDataPacket)
-				if fieldDataPacket.data[0] == EOFPacket {
+				// the rows end with EOF/OK or, when the statement fails while the rows are sent, with ERR
+				if fieldDataPacket.data[0] == EOFPacket || fieldDataPacket.IsErr() {
 					break
 				}
 				newData, err := handler.processBinaryDataRow(ctx, fieldDataPacket.GetData(), fields)
@@ -902,7 +903,8 @@ func (handler *Handler) QueryResponseHandler(ctx context.Context, packet *Packet
 					return err
 				}
 				output = append(output, fieldDataPacket)
-				if fieldDataPacket.IsEOF() {
+				// the rows end with EOF/OK or, when the statement fails while the rows are sent, with ERR
+				if fieldDataPacket.IsEOF() || fieldDataPacket.IsErr() {
 					dataLog.Debugln("Empty result set")
 					break
 				}
